@@ -1,6 +1,8 @@
 package main
 
 import (
+	"os"
+	"runtime/debug"
 	"strconv"
 	"fmt"
 	"go/constant"
@@ -33,7 +35,12 @@ type SpecEnv struct {
 
 type specErr struct{ msg string }
 
-func specFail(format string, a ...interface{}) { panic(specErr{fmt.Sprintf(format, a...)}) }
+func specFail(format string, a ...interface{}) {
+	if os.Getenv("GOVC_DEBUG") != "" {
+		debug.PrintStack()
+	}
+	panic(specErr{fmt.Sprintf(format, a...)})
+}
 
 func (s *Session) evalBool(se *SpecEnv, e SExpr) T {
 	v := s.evalSpec(se, e)
